@@ -170,6 +170,17 @@ def s4(ctx):
         shard_iters = [(s, n) for s, n in iters if '_shards' in s]
         ok = len(shard_iters) == 1 and shard_iters[0][0] in ('self._shards', 'reversed(self._shards)')
         why = 'iterates %s' % [s for s, _ in shard_iters]
+        if ok:
+            node0 = shard_iters[0][1]
+            if isinstance(node0, ast.comprehension) and node0.ifs:
+                ok, why = False, 'shards are filtered by `if %s`' % ast.unparse(node0.ifs[0])
+            if isinstance(node0, ast.For):
+                for st_ in node0.body:
+                    if isinstance(st_, ast.If) or any(isinstance(x, ast.Continue) for x in ast.walk(st_)
+                                                      if not isinstance(st_, (ast.While,))):
+                        inner_while = isinstance(st_, ast.While)
+                        if not inner_while:
+                            ok, why = False, 'the per-shard call is conditional (if/continue in the shard loop)'
         # the per-shard call uses the loop variable as receiver
         if ok:
             node = shard_iters[0][1]
